@@ -321,7 +321,8 @@ class Response:
                 cLength = len(self.body)
             elif isinstance(self.body, str):
                 cLength = len(self.body.encode(self.encoding))
-            elif isinstance(self.body, list):
+            elif isinstance(self.body, list) and (self.body or not self.stream):
+                # (a streamed response without a body yet is fed by stream events: length unknown)
                 cLength = sum(
                     len(s.encode(self.encoding)) if not isinstance(s, bytes) else len(s) for s in self.body if s is not None
                 )
